@@ -1,7 +1,116 @@
 import GoawkModel.Basic
-/-! Line-protocol handler for property C16: one request line (already split into words, without the leading `c16`) → one answer line. -/
-namespace GoawkModel.Drv.C16
+import GoawkModel.C16
+/-! Line-protocol handler for property C16 (and, through `GoawkModel.Drv.C19`, C19).
 
-def handle (_args : List String) : String := "unimplemented"
+request : `resolve <order> S <name>* B <name>* (F <name> P <param>* E <event>*)* M <event>*`
+  `<order>` : `auto` (the model of topoSort, map iteration = identity), `rev` (map iteration reversed), or `o:<n>,<n>,…`
+  `<event>` : `r:<v>:<u|s|a>` | `c:<f>:<nargs>` | `x:<f>:<i>` | `v:<f>:<i>:<v>`
+answer  : `ok G <n>:<t>:<idx>* (F <fname> <n>:<t>:<idx>*)*`   (functions by name, variables by name — what DebugTypes prints)
+          `err <fn> <eventIndex> <kind> …`  with kind `useAs <cur> <v> <want>` | `exprAsArray <f> <i>` | `passAs <cur> <v> <want>` | `tooMany`
+`order …` with the same program syntax answers the model's function order. -/
+namespace GoawkModel.Drv.C16
+open GoawkModel GoawkModel.C16
+
+def tyOfStr : String → Option Ty
+  | "u" => some .unknown | "s" => some .scalar | "a" => some .array | _ => none
+
+def tyStr : Ty → String
+  | .unknown => "u" | .scalar => "s" | .array => "a"
+
+def parseEvent (w : String) : Option Event :=
+  match w.splitOn ":" with
+  | ["r", v, t] => do some (.use (← v.toNat?) (← tyOfStr t))
+  | ["c", f, n] => do some (.call (← f.toNat?) (← n.toNat?))
+  | ["x", f, i] => do some (.exprArg (← f.toNat?) (← i.toNat?))
+  | ["v", f, i, v] => do some (.varArg (← f.toNat?) (← i.toNat?) (← v.toNat?))
+  | _ => none
+
+structure PState where
+  prog : Program := ⟨[], [], [], []⟩
+  mode : String := ""
+  cur : Option Func := none
+  bad : Bool := false
+
+def flushFunc (st : PState) : PState :=
+  match st.cur with
+  | some f => { st with prog := { st.prog with funcs := st.prog.funcs ++ [f] }, cur := none }
+  | none => st
+
+def feed (st : PState) (w : String) : PState :=
+  if w == "S" || w == "B" || w == "M" then { flushFunc st with mode := w }
+  else if w == "F" then { flushFunc st with mode := "F" }
+  else if w == "P" || w == "E" then { st with mode := w }
+  else
+    match st.mode with
+    | "S" => match w.toNat? with
+      | some n => { st with prog := { st.prog with specials := st.prog.specials ++ [n] } }
+      | none => { st with bad := true }
+    | "B" => match w.toNat? with
+      | some n => { st with prog := { st.prog with builtins := st.prog.builtins ++ [n] } }
+      | none => { st with bad := true }
+    | "F" => match w.toNat? with
+      | some n => { st with cur := some ⟨n, [], []⟩, mode := "F!" }
+      | none => { st with bad := true }
+    | "P" => match w.toNat?, st.cur with
+      | some n, some f => { st with cur := some { f with params := f.params ++ [n] } }
+      | _, _ => { st with bad := true }
+    | "E" => match parseEvent w, st.cur with
+      | some e, some f => { st with cur := some { f with body := f.body ++ [e] } }
+      | _, _ => { st with bad := true }
+    | "M" => match parseEvent w with
+      | some e => { st with prog := { st.prog with main := st.prog.main ++ [e] } }
+      | none => { st with bad := true }
+    | _ => { st with bad := true }
+
+def parseProgram (ws : List String) : Option Program :=
+  let st := flushFunc (ws.foldl feed {})
+  if st.bad then none else some st.prog
+
+def parseOrder (spec : String) (p : Program) : Option (List Name) :=
+  if spec == "auto" then some (goOrder id p)
+  else if spec == "rev" then some (goOrder List.reverse p)
+  else if spec.startsWith "o:" then
+    let body := (spec.drop 2).toString
+    if body == "" then some [] else (body.splitOn ",").mapM String.toNat?
+  else none
+
+def showEntries (l : List (Name × Ty × Nat)) : String :=
+  String.intercalate " " (l.map fun (n, t, i) => s!"{n}:{tyStr t}:{i}")
+
+def sortByName (l : List (Name × Ty × Nat)) : List (Name × Ty × Nat) :=
+  (sortNames (l.map (·.1))).filterMap fun n => l.find? (fun e => e.1 == n)
+
+def showTable (p : Program) (s : State) : String :=
+  let fs := (sortNames (p.funcs.map (·.name))).filterMap p.findFunc
+  let parts := ("G " ++ showEntries (globalTable p s)) ::
+    fs.map fun f => s!"F {f.name} " ++ showEntries (sortByName (localTable s f))
+  String.intercalate " " parts
+
+def showErr : LErr → String
+  | (fn, i, .useAs c v w) => s!"err {fn} {i} useAs {tyStr c} {v} {tyStr w}"
+  | (fn, i, .exprAsArray f k) => s!"err {fn} {i} exprAsArray {f} {k}"
+  | (fn, i, .passAs c v w) => s!"err {fn} {i} passAs {tyStr c} {v} {tyStr w}"
+  | (fn, i, .tooMany) => s!"err {fn} {i} tooMany"
+
+def handle (args : List String) : String :=
+  match args with
+  | "resolve" :: spec :: rest =>
+    match parseProgram rest with
+    | none => "bad-program"
+    | some p =>
+      match parseOrder spec p with
+      | none => "bad-order"
+      | some o =>
+        match resolve p o with
+        | .ok s => "ok " ++ showTable p s
+        | .error e => showErr e
+  | "order" :: spec :: rest =>
+    match parseProgram rest with
+    | none => "bad-program"
+    | some p =>
+      match parseOrder spec p with
+      | none => "bad-order"
+      | some o => "order " ++ String.intercalate " " (o.map toString)
+  | _ => "bad-request"
 
 end GoawkModel.Drv.C16
